@@ -32,7 +32,13 @@ ASSUMPTIONS = [
     "equals the rule mirror for fifo/spt/lpt/mwkr",
     "VRP: RNG, float distances (`hypot`) and the insertion-cost heuristics appear only as the payload of "
     "abstract transitions; the cached distance matrix is taken from the implementation as exact rationals",
-    "VRP: float arrival times / objective are compared with the exact rational recomputation within 1e-6",
+    "VRP: float arrival times / objective are compared with the exact rational recomputation within 1e-6 absolute "
+    "(objective: plus 1e-12 relative to the exact value, which only matters above 1e6); the recomputation starts "
+    "from the implementation's own cached distance matrix taken as exact rationals, so `hypot` rounding never "
+    "enters it -- the only place a `hypot` tolerance is used is chkEuclid (d^2 vs dx^2+dy^2, relative 1e-12); a "
+    "penalty term weight*eps is therefore visible as soon as it exceeds 1e-6 (numeric-edge family: eps from 2^-30 "
+    "to 1e-5 with weights 1e3..1e6, and exact zeros)",
+    "VRP: Vehicle.max_duration is never read by the code and has no term in vrp_objective (no duration excess)",
     "VRP: Vehicle.id is a label (the code never reads it); every per-vehicle quantity of the model (capacity) is "
     "addressed by list position, so ids different from positions must not change any observable",
     "excluded region: customer ids are their 1-based position (the documented usage; VRPState indexes "
@@ -234,6 +240,52 @@ def gen_vrp(rng, big, large=False):
     case["cust_style"] = "tuples" if case.pop("as_tuples") else rng.choice(["objects", "objects", "mixed", "short_tuples"])
     if large:
         case["large"] = True
+    return case
+
+
+EPS = [0, 0, 2.0 ** -30, 1e-9, 1e-8, 2e-7, 8e-7, 2.0 ** -20, 1e-6, 1.5e-6, 1e-5]
+
+
+def gen_edge(rng):
+    """Numeric-edge family for the objective: a 3-4-5 geometry scaled by a power of two (all distances exact
+    doubles) in which the arrival spread at a two-vehicle customer, a lateness and a capacity excess are each
+    exactly 0, tiny (2^-30 .. 1e-5) or just above 1e-6.  Customer 1 = M (needs two vehicles) at (6s, 8s),
+    customer 2 = X at (3s, 4s) on the way to M, customer 3 = Y at (-4s, 3s).  Plan: vehicle A drives 0 -> M
+    (arrives 10s), vehicle B drives 0 -> X -> M and is held up at X by `eps_sync` (X's window opens at
+    5s + eps, or X takes eps service time), so the spread at M is eps and no waiting at M equalises it (unless
+    the recipe opens M's window late on purpose); vehicle C reaches Y at 5s, `eps_late` after Y's window closed;
+    B's load exceeds its capacity by `eps_cap`."""
+    s_ = 2.0 ** rng.choice([-1, 0, 0, 1, 2, 3])
+    e_sync, e_late, e_cap = rng.choice(EPS), rng.choice(EPS), rng.choice(EPS)
+    mode = rng.choice(["window", "window", "service"])
+    equalise = rng.random() < 0.15
+    m = [1, 6 * s_, 8 * s_, 4, (10 * s_ + 2 * e_sync) if equalise else rng.choice([0, 0, 10 * s_]), None, 0, 2]
+    if rng.random() < 0.3:
+        m[5] = 10 * s_ + rng.choice([0, e_sync, 1.0])  # M's own window closes at / just after the first arrival
+    x = [2, 3 * s_, 4 * s_, 6 + e_cap, (5 * s_ + e_sync) if mode == "window" else 0, None,
+         e_sync if mode == "service" else 0, 1]
+    y = [3, -4 * s_, 3 * s_, rng.choice([0, 1]), 0, 5 * s_ - e_late, rng.choice([0, 1]), 1]
+    custs = [m, x, y]
+    for i in range(rng.choice([0, 0, 1, 2])):
+        custs.append([4 + i, rng.choice([-8, 8]) * s_, rng.choice([-6, 6]) * s_, rng.choice([0, 1, 2]), 0, None, 0, 1])
+    ids = rng.choice([[0, 1, 2], [2, 0, 1], [10, 20, 30]])
+    vehicles = [[ids[0], rng.choice([None, 20]), None], [ids[1], 10, None], [ids[2], rng.choice([None, 5]), None]]
+    weights = {}
+    for key, vals in (("tw_penalty", [1000.0, 1e5]), ("capacity_penalty", [1000.0, 1e5]),
+                      ("sync_penalty", [10000.0, 1000.0, 1e6]), ("vehicle_weight", [0.0, 2.5])):
+        if rng.random() < 0.5:
+            weights[key] = rng.choice(vals)
+    case = {"kind": "vrp", "customers": custs, "vehicles": vehicles, "vehicle_capacity": None, "depot": [0, 0],
+            "weights": weights, "cust_style": rng.choice(["objects", "tuples", "short_tuples"]),
+            "plans": [[[1], [2, 1], [3]], [[2, 1], [1], [3]], [[1], [3, 2, 1], []]],
+            "edge": {"sync": e_sync, "late": e_late, "cap": e_cap, "mode": mode, "equalise": equalise},
+            "probe_seed": rng.randrange(1000)}
+    if rng.random() < 0.4:
+        case["script"] = [{"op": "sync_aware_insertion", "seed": rng.randrange(1000)}] + \
+            [op_call(rng, rng.choice(DESTROY if i % 2 == 0 else REPAIR)) for i in range(rng.randint(2, 6))]
+    else:
+        case.update({"max_iter": rng.choice([6, 12]), "max_no_improve": 20, "seed": rng.randrange(1000),
+                     "direct": [[rng.random(), op_call(rng, rng.choice(DESTROY + REPAIR))] for _ in range(4)]})
     return case
 
 
@@ -552,6 +604,14 @@ def impl_vrp(case, shared=None, tag=0):
             base.unassigned = set(src[1])
             base.update_arrival_times()
             probes.append(snap(base))
+        for plan in case.get("plans", []):  # hand-made plans of the numeric-edge family
+            base = V.VRPState.from_problem(st.customers, st.vehicles)
+            if len(plan) != len(base.routes):
+                continue
+            base.routes = [list(r) for r in plan]
+            base.unassigned = {c for c in range(1, len(st.customers))} - {c for r in plan for c in r}
+            base.update_arrival_times()
+            probes.append(snap(base))
         out["probes"] = probes
     finally:
         for name, fn in orig.items():
@@ -743,6 +803,11 @@ def judge_vrp(ctx, case, o, reply, ids, final_id):
                  {**rep, "dist": out["dist"]})
     multi = {c[0] for c in case["customers"] if c[7] > 1}
     ctx.count("vrp:script" if "script" in case else "vrp:solve")
+    if case.get("edge"):
+        ctx.count("vrp:numeric_edge")
+        for term in ("sync", "late", "cap"):
+            e = case["edge"][term]
+            ctx.count(f"vrp:numeric_edge:{term}:" + ("exact_zero" if e == 0 else "tiny<=1e-6" if e <= 1e-6 else "just_above_1e-6"))
     if case.get("large"):
         ctx.count("large:vrp")
     ctx.count(f"vrp:n={len(case['customers'])}")
@@ -1137,10 +1202,12 @@ def run(ctx, budget):
     js = [gen_js(ctx.rng, big and i % 3 == 0) for i in range(3000 * budget)]
     vrp = [gen_vrp(ctx.rng, big and i % 3 == 0) for i in range(2000 * budget)]
     hist = [gen_hist(ctx.rng, big) for i in range(400 * budget)]
+    edge = [gen_edge(ctx.rng) for i in range(200 * budget)]
     large = [gen_js(ctx.rng, big, large=True) if i % 2 else gen_vrp(ctx.rng, big, large=True) for i in range(24 * budget)]
     cases += large[:12]  # a few large instances first (they are the slowest tasks)
     for i in range(1000 * budget):  # interleaved so that every batch (and the samples) holds all kinds
         cases += js[3 * i:3 * i + 3] + vrp[2 * i:2 * i + 2] + hist[2 * i // 5:(2 * i + 2) // 5] \
+            + edge[i // 5:(i + 1) // 5] \
             + (large[12 + i // 80:13 + i // 80] if i % 80 == 0 else [])
     for i in range(0, len(cases), 2500):  # bounded memory: one batch of requests/replies at a time
         run_cases(ctx, cases[i:i + 2500])
